@@ -3,7 +3,7 @@
     Sni/WireProofs.v or Sni/WireGen.v, instantiated with the objects the
     translator regenerated from /repo (Gen/WireSchema.v). *)
 From Coq Require Import List NArith ZArith Bool String.
-From Verif Require Import Lib.Bytes Sni.Wire Sni.WireProofs Sni.WireGen Gen.WireSchema.
+From Verif Require Import Lib.Bytes Sni.Wire Sni.WireProofs Sni.WireGen Sni.WireFrozen Gen.WireSchema.
 Import ListNotations.
 Local Open Scope N_scope.
 
@@ -131,11 +131,12 @@ Theorem C13_wire_frozen :
   layout_frozenb = true /\
   requests_frozenb = true /\
   pairing_okb = true /\
-  deployed_pairing_frozenb = true.
+  deployed_pairing_frozenb = true /\
+  src_diff gen_codec_src WireFrozen.frozen_codec_src = [].
 Proof.
   exact (conj gen_enc_dec_agree (conj gen_msg_codes_frozen (conj gen_err_codes_frozen
         (conj gen_layout_frozen (conj gen_requests_frozen
-        (conj gen_pairing_ok gen_deployed_pairing_frozen)))))).
+        (conj gen_pairing_ok (conj gen_deployed_pairing_frozen gen_codec_src_frozen))))))).
 Qed.
 Print Assumptions C13_wire_frozen.
 
